@@ -1,7 +1,9 @@
 mod adversary;
 mod c04;
 mod c05;
+mod c06;
 mod c11;
+mod c17;
 mod e1;
 mod explore;
 mod families;
@@ -51,10 +53,12 @@ fn main() {
                 "C03" => c03(tier),
                 "C04" => c04check(tier),
                 "C05" => c05check(tier),
+                "C06" => { let mut rep = Report::new("C06", tier, "exploration"); rep.rule = "valid message / proposal / commit wrappers: outer mutations (kind, h tag variants, created_at boundaries, content empty / non-base64 / every k-th prefix truncation and character change) and inner mutations re-encrypted under the right exporter secret (every k-th truncation and byte change of the MLS payload, header +1, trailing bytes, degenerate payloads; k=1 in thorough), malformed application payloads, each delivered in receiver states {idle, own pending commit, proposal queued, evicted, next epoch} with an unrelated second group present; welcome mutations x recipient states; every string argument of the uniffi API x 40 malformed strings; oracle: no panic, refused => fingerprint of every group unchanged; distinct = distinct (event kind, mutation, state, result)".into(); c06::run(&mut rep, lab::Bk::Memory, tier != "quick"); if tier != "quick" { c06::run(&mut rep, lab::Bk::Sqlite, false); } c06::key_package_tags(&mut rep); c06::bindings(&mut rep); rep.transitions = rep.evaluations; rep.finish() }
                 "C07" => c07(tier),
                 "C08" => c08(tier),
                 "C09" => { let mut rep = Report::new("C09", tier, "model_checking"); rep.rule = "every sequence of storage operations up to the tier's depth over the snapshot alphabet (writes inside and outside the snapshot scope on 2 groups, create/rollback/release/prune, 2 names), both backends + reference model compared on every return value and on the whole read surface; distinct = distinct reference-model states".into(); storex::check_c09(&mut rep, tier != "quick"); rep.finish() }
                 "C10" => { let mut rep = Report::new("C10", tier, "model_checking"); rep.rule = "every sequence of storage operations up to the tier's depth over four colliding alphabets (groups/relays/secrets, messages, dedup records and welcomes, snapshots + OpenMLS writes); memory, SQLite and a plain reference model compared on every return value and on every read method with every pagination triple; distinct = distinct reference-model states".into(); storex::check_c10(&mut rep, tier != "quick"); rep.finish() }
+                "C17" => { let mut rep = Report::new("C17", tier, "exploration"); rep.rule = "payload sizes {0,1,15,16,17,63,64,65 (+64 KiB+-1, 1 MiB)} x MIME families x spellings: round trip for sender and other member, Err for non-member and other group; for sizes <= 65 every single-bit flip of ciphertext and nonce and every single-field change of name / MIME / hash / scheme version must fail; all pairs of (file, name, type, group) keys differ; group image v2 with every bit of ciphertext, nonce and seed flipped, v1 round trip; history: decryption 0..k epochs later x announcing message processed after every possible number of intervening commits".into(); c17::run(&mut rep, lab::Bk::Memory, tier != "quick"); if tier != "quick" { c17::run(&mut rep, lab::Bk::Sqlite, false); } rep.transitions = rep.evaluations; rep.finish() }
                 "C18" => { let mut rep = Report::new("C18", tier, "model_checking"); rep.rule = "message alphabet with ties on created_at and processed_at: every sequence up to the tier's depth, listings in both sort orders with every (limit, offset) compared with the documented total order; every store/invalidate sequence through update_last_message_if_newer checked for pointer == head of valid messages".into(); storex::check_c18(&mut rep, tier != "quick");
                     let mut jobs = jobs_from(if tier == "quick" { families::c02_quick() } else { families::c02_thorough() });
                     if tier != "quick" { jobs.extend(jobs_from(families::c02_quick()).into_iter().map(|j| j.backend(lab::Bk::Sqlite))); }
@@ -181,8 +185,38 @@ fn c08(tier: &str) -> i32 {
 fn c14(tier: &str) -> i32 {
     let mut rep = Report::new("C14", tier, "model_checking");
     rep.rule = "every tracing record (TRACE and up), every Err (Display+Debug) and every result Debug on every transition of the explored graphs is scanned for every sensitive value of the world in lower/upper hex and byte-list form".into();
-    let jobs = jobs_from(families::c01_quick());
+    let mut v = families::c01_quick();
+    v.extend(families::leaves());
+    v.extend(families::c02_quick().into_iter().take(3));
+    v.extend(families::c08_quick().into_iter().skip(2).take(2));
+    v.extend(families::c03_quick().into_iter().take(2));
+    if tier != "quick" {
+        v.extend(families::c02_thorough());
+        v.extend(families::chains(2, 2));
+        v.extend(families::one_round(&["A", "B", "C", "Z"], &["A", "B"], 2, false));
+    }
+    let mut jobs = jobs_from(v);
+    if tier != "quick" {
+        jobs.extend(jobs_from(families::c01_quick()).into_iter().map(|j| j.backend(lab::Bk::Sqlite)));
+    }
     run_e1(jobs, &|cx, rep, _| props_e1::check_c14(cx, rep), &mut rep);
+    // the hostile inputs of C06, monitored
+    c06::run(&mut rep, lab::Bk::Memory, tier != "quick");
+    // Debug of the types the statement names
+    {
+        let enc = mdk_sqlite_storage::EncryptionConfig::new([0xEE; 32]);
+        let s = format!("{enc:?}");
+        rep.evaluations += 1;
+        if s.to_lowercase().contains(&"ee".repeat(32)) || s.contains("238, 238, 238") {
+            rep.finding("C14|database-key@Debug(EncryptionConfig)".into(), "Debug of EncryptionConfig prints the key".into(), serde_json::json!({"debug": s}));
+        }
+        let sec = mdk_storage_traits::Secret::new([0xDD; 32]);
+        let s = format!("{sec:?}");
+        rep.evaluations += 1;
+        if s.to_lowercase().contains(&"dd".repeat(32)) || s.contains("221, 221, 221") {
+            rep.finding("C14|secret@Debug(Secret)".into(), "Debug of Secret prints its content".into(), serde_json::json!({"debug": s}));
+        }
+    }
     rep.finish()
 }
 
